@@ -3,6 +3,7 @@ import Driver.C16
 import Driver.C13
 import Driver.C12
 import Driver.C17
+import Driver.C15
 open Driver
 
 def dispatch (id : String) (toks : List String) (impl : String) : Verdict :=
@@ -11,6 +12,7 @@ def dispatch (id : String) (toks : List String) (impl : String) : Verdict :=
   | "C13" => Driver.C13.handle toks impl
   | "C12" => Driver.C12.handle toks impl
   | "C17" => Driver.C17.handle toks impl
+  | "C15" => Driver.C15.handle toks impl
   | _ => badOp "unknown property"
 
 /-- Split `line` at the first occurrence of " => ". -/
